@@ -308,6 +308,11 @@ def classify(mode, hazard, symptom, detail, case, new_text, exc=None):
         return 'inline:array-dummy-use-spelled-in-other-case-than-declaration'
     if hazard == 'fun_array_arg' and symptom in ('differ', 'compile', 'exception'):
         return 'inline:elemental-function-with-array-argument'
+    if symptom == 'differ' and lo_new.count('result_r =') >= 2 and \
+            re.search(r'\b(hfun2?|hele|ifun)\s*\([^()]*\b(hfun2?|hele|ifun)\s*\(', src.lower()):
+        # a function reference nested in the argument of another function reference whose result variables carry the
+        # same name: both are inlined into the one variable 'result_<name>' and the outer value is overwritten
+        return 'inline:nested-function-references-share-the-renamed-result-variable'
     if symptom == 'exception':
         return f'inline:{mode}:exception:{type(exc).__name__}@{innermost_loki_frame(exc)}'
     if symptom == 'reparse':
